@@ -84,7 +84,7 @@ func init() {
 			cfs, cev, cinc := rtPart(run, "commitsync", 32, 1200, map[string]int{"C17 rounds overtaken by a sync while being set up": 15})
 			return append(fs, cfs...), map[string]interface{}{"rt_stress": ev, "rt_commitsync": cev}, append(inc, cinc...)
 		}})
-	reg(&sim.SimCheck{Prop: "C09", Workload: "c09", Profile: withOpts(advProfile(merge(map[string]int{"barePP": 5}, map[string]int{"vcGames": 25, "support": 20, "equivocate": 8}), 600, 2), func(p *sim.Profile) { p.CommErrors = true }),
+	reg(&sim.SimCheck{Prop: "C09", Workload: "c09", Profile: withOpts(advProfile(merge(map[string]int{"barePP": 5}, map[string]int{"vcGames": 25, "support": 20, "equivocate": 8}), 600, 2), func(p *sim.Profile) { p.CommErrors, p.CommitFailures = true, true }),
 		QuickCases: 5000, ThoroughCases: 100000,
 		NonTrivial: func(r *sim.Result) bool {
 			return r.Stats["C09 locked view changes judged"] > 0 || r.Stats["C09 new views re-proposing a lock"] > 0
@@ -110,7 +110,8 @@ func init() {
 	reg(&sim.SimCheck{Prop: "C05", Workload: "c05", Profile: func(th bool) *sim.Profile {
 		p := advProfile(merge(noBare, map[string]int{"vcGames": 25, "support": 15, "outsider": 8, "hugeView": 6, "garbage": 4, "mutate": 20}), 300, 2)(th)
 		p.Tail = true
-		p.NoRejects = true // the property is about proposals the consumer accepts
+		p.NoRejects = true  // the property is about proposals the consumer accepts
+		p.CommErrors = true // the transport reports an error for sends that did go out (e.g. one crashed recipient): no ground for losing liveness
 		return p
 	},
 		QuickCases: 4000, ThoroughCases: 80000,
